@@ -96,13 +96,12 @@ Print Assumptions C08_forwarded_fresh.
 (* ---------------- end to end: what reaches the upstream through HTTPProxy.ServeHTTP ---------------- *)
 
 (* The peer is the last element of X-Forwarded-For at the upstream (modelled ReverseProxy
-   for plain requests, addHeaders for Upgrade: websocket), for every client header map
-   outside finding region 2. *)
+   for plain requests, addHeaders for Upgrade: websocket / Websocket), for every client header
+   map (no region excluded since the repair afbb806). *)
 Theorem C08_xff_last_is_peer : forall cfg t uuid r peer up sts,
   serve cfg t uuid r = Ok (up, sts) -> r_peer r = Some peer -> wf_hdr (r_hdr r) = true ->
   off K_XFF (c_tlsheader cfg) ->
   off K_UPGRADE (c_clientip cfg) -> off K_UPGRADE (c_tlsheader cfg) -> off K_UPGRADE (c_reqid cfg) ->
-  F_capital_websocket (r_hdr r) = false ->
   cl_xff up peer = true.
 Proof. exact xff_last_is_peer. Qed.
 Print Assumptions C08_xff_last_is_peer.
@@ -132,8 +131,8 @@ Print Assumptions C08_serve_sts_clause.
 
 (* ALL clauses of the property (client-IP header, X-Forwarded-For, X-Real-Ip, TLS header,
    X-Forwarded-Proto/-Port/-Host, Forwarded) hold at the upstream for every client header map a
-   client can produce, every request and every sane configuration outside the four finding
-   regions (this is the boolean the correspondence run evaluates on the real code's output). *)
+   client can produce, every request and every sane configuration outside the three open finding
+   regions (host= rewrite, ClientIPHeader = X-Real-Ip, Connection naming a managed header) (this is the boolean the correspondence run evaluates on the real code's output). *)
 Theorem C08_all_clauses_on_domain : forall cfg t uuid r peer up sts,
   cfg_sane cfg = true -> wf_hdr (r_hdr r) = true ->
   no_region cfg t (r_hdr r) (r_host r) = true ->
@@ -169,15 +168,26 @@ Theorem C08_xfh_after_host_rewrite_refuted :
 Proof. exact xfh_after_host_rewrite_refuted. Qed.
 Print Assumptions C08_xfh_after_host_rewrite_refuted.
 
-(* F-C08-2: Upgrade: Websocket gets no X-Forwarded-For entry *)
+(* F-C08-2, REPAIRED in /repo by afbb806: Upgrade: Websocket got no X-Forwarded-For entry.
+   The statement is about the definitions as they were before the repair ([serve_unrepaired]);
+   on the current code the same request gets the peer appended ([C08_xff_capital_websocket_repaired])
+   and C08_xff_last_is_peer holds without exception. *)
 Theorem C08_xff_capital_websocket_refuted :
   exists cfg t uuid r up sts,
     cfg_sane cfg = true /\ wf_hdr (r_hdr r) = true /\
-    serve cfg t uuid r = Ok (up, sts) /\
+    serve_unrepaired cfg t uuid r = Ok (up, sts) /\
     F_capital_websocket (r_hdr r) = true /\
     hfind up K_XFF = Some [bs "6.6.6.6"] /\ cl_xff up ex_peer = false.
 Proof. exact xff_capital_websocket_refuted. Qed.
 Print Assumptions C08_xff_capital_websocket_refuted.
+
+Theorem C08_xff_capital_websocket_repaired :
+  exists up sts,
+    serve ex_cfg (ex_tgt []) []
+      (ex_req None [(K_UPGRADE, [bs "Websocket"]); (K_CONN, [bs "Upgrade"]); (K_XFF, [bs "6.6.6.6"])]) = Ok (up, sts) /\
+    hfind up K_XFF = Some [bs "6.6.6.6, 1.2.3.4"] /\ cl_xff up ex_peer = true.
+Proof. exact xff_capital_websocket_repaired. Qed.
+Print Assumptions C08_xff_capital_websocket_repaired.
 
 (* F-C08-3: ClientIPHeader = "X-Real-Ip" lets a forged X-Real-Ip through *)
 Theorem C08_clientip_xrealip_refuted :
